@@ -133,7 +133,7 @@ def judge(spec_grace: int, now: float, reach: set, live: set, markers_before: Di
     if real["raised"]:
         if fault_pos != "refresh" and not real.get("aborted_type_ok"):
             viol.append({"key": f"wrong-exception:{what}", "what": f"{what}: collection raised {real['exc_type']} instead of GarbageCollectionAborted: {real['exc']}"})
-        if fault_pos in ("refresh", "reach", "markers") and deleted:
+        if fault_pos in ("refresh", "pre") and deleted:
             viol.append({"key": f"abort-after-delete:{what}", "what": f"{what}: collection raised {real['exc_type']} but had already deleted {sorted(deleted)[:3]}"})
         if deleted - orphans:
             viol.append({"key": f"abort-deleted-non-orphan:{what}", "what": f"{what}: raised, and deleted files that are not old unreferenced orphans: {sorted(deleted - orphans)[:3]}"})
@@ -195,15 +195,21 @@ def run_table(spec: Dict[str, Any]) -> Dict[str, Any]:
         out["clean"] = clean
         T = clean["real"]["trace"]
         out["stats"]["calls"] = len(T)
-        first_data_list = next((i for i, c in enumerate(T) if c[0] == "L" and c[1] == "data"), len(T))
-        first_marker_list = next((i for i, c in enumerate(T) if c[0] == "L" and c[1] == gcsim.INFLIGHT), len(T))
+
+        def pos_of(op: str, key: str) -> str:
+            """'sweep': a call of _gc_prefix (its listing, or stat / delete of a listed file); 'pre': reachability / markers."""
+            if op == "L":
+                return "sweep" if key in ("data", "metadata/manifests") else "pre"
+            if op in ("S", "D") and not key.startswith(gcsim.INFLIGHT + "/"):
+                return "sweep"
+            return "pre"
         # single faults at every call
         occ: Dict[Tuple[str, str], int] = {}
         rng = random.Random(spec["seed"] + 1)
         for i, (op, key, _f) in enumerate(T):
             o = occ.get((op, key), 0)
             occ[(op, key)] = o + 1
-            pos = "reach" if i < first_marker_list else "markers" if i < first_data_list else "sweep"
+            pos = pos_of(op, key)
             kinds = KINDS[op] if spec["all_kinds"] else ["raise"] + rng.sample(KINDS[op][1:], 1)
             for kind in kinds:
                 what = f"{kind}@{op}:{role_of(key, reach_lists, reach_mans)}"
@@ -220,7 +226,7 @@ def run_table(spec: Dict[str, Any]) -> Dict[str, Any]:
                 occ2[(op, key)] = o + 1
                 if idx in (i, j):
                     plan.append({"op": op, "key": key, "occ": o, "kind": rng.choice(KINDS[op])})
-            pos = "reach" if j < first_marker_list else "markers" if j < first_data_list else "sweep"   # the later fault decides
+            pos = "sweep" if any(pos_of(p["op"], p["key"]) == "sweep" for p in plan) else "pre"
             what = "double:" + "+".join(f"{p['kind']}@{p['op']}:{role_of(p['key'], reach_lists, reach_mans)}" for p in plan)
             out["runs"].append(one(plan, None, pos, what))
             out["stats"]["fault_runs"] += 1
@@ -228,7 +234,7 @@ def run_table(spec: Dict[str, Any]) -> Dict[str, Any]:
         for key in sorted(reach_lists | reach_mans):
             for dmg in DAMAGES:
                 what = f"damage:{dmg}:{role_of(key, reach_lists, reach_mans)}"
-                r = one(None, (key, dmg), "reach", what)
+                r = one(None, (key, dmg), "pre", what)
                 if dmg == "json-empty":
                     r["violations"] = []          # damage that still parses: recorded, not judged
                     r["not_judged"] = True
